@@ -12,7 +12,7 @@ CLASS_LAYER = [PA + 'Pauli.__matmul__#Pauli', PA + 'Pauli.__neg__', PA + 'Pauli.
 # every kernel that currently has a discharged contract (their frame.* obligations are the C17 frame conditions)
 MEASURE_LEMMAS = ['acq_diff2', 'onsite_flat', 'acq_bilinear', 'acq_antisym', 'ipow_parity', 'ordg_bits', 'acq_zero', 'ordg_acq', 'selacq_gram', 'acqsum_ext',
                   'ipowsum_ext', 'symplectic_complete']
-KERNELS = [U + f for f in ('pauli_diagonalize1', 'stabilizer_measure', 'stabilizer_project', 'stabilizer_postselection', 'stabilizer_projection_trace', 'acq', 'ipow', 'p0', 'ps0', 'acq_mat', 'pauli_tokenize', 'pauli_combine', 'pauli_transform',
+KERNELS = [U + f for f in ('random_pair', 'pauli_diagonalize1', 'stabilizer_measure', 'stabilizer_project', 'stabilizer_postselection', 'stabilizer_projection_trace', 'acq', 'ipow', 'p0', 'ps0', 'acq_mat', 'pauli_tokenize', 'pauli_combine', 'pauli_transform',
                            'clifford_rotate', 'clifford_rotate_signless', 'map_to_state', 'state_to_map', 'front',
                            'pauli_is_onsite', 'stabilizer_expect')]
 
@@ -131,6 +131,7 @@ def C15(run):
 
 
 def C16(run):
+    run.deductive(keys=[U + 'random_pair', U + 'front', U + 'acq'], lemmas=['acq_diff2', 'onsite_flat', 'acq_antisym'])
     run.bounded_check('c16_random', _b().c16_random, Nmax=3, samples=q(run, 25, 150), n1=q(run, 4800, 24000), n2=q(run, 36000, 144000))
     return 'other', ('bounded: validity of every sampler; uniformity by chi-square with an 8-sigma threshold on N=1 (24 elements) and N=2 '
                      '(720 symplectic classes); resampling of map-less gates; fairness of sign bits and coins statistically (not a contract)')
